@@ -8,7 +8,7 @@ import shutil
 from collections import defaultdict
 
 from vlib import runner, pipeline, world, world2, parse
-from vlib.checks.c03 import noisy_world, STRATEGIES
+from vlib.checks.c03 import noisy_world, STRATEGIES, main_chroms_of
 
 LEVEL = "exploration"
 
@@ -38,6 +38,23 @@ def run(chk, scratch):
     for seed in sorted(set(j[0] for j in jobs)):
         d = os.path.join(scratch, "w%d" % seed)
         w = world2.split_locus_world(seed) if seed >= 9000 else noisy_world(seed)
+        if seed < 9000:
+            # unannotated loci at the SAME coordinates on two sequences whose first introns begin 3 bp apart: 20 reads on the longest sequence
+            # (handled first when one process handles everything), 6 on the other; what was counted on one sequence says nothing about another
+            from vlib.world import Gene as _G, Transcript as _T
+            order = sorted(main_chroms_of(w), key=lambda c: -w.chrom_len(c))
+            p0 = max(g.end for g in w.genes if g.chrom in order[:2]) + 4000
+            if len(order) >= 2 and p0 + 3000 < min(w.chrom_len(c) for c in order[:2]):
+                for k, (chrom, off, n_reads) in enumerate(((order[0], 0, 20), (order[1], 3, 6))):
+                    ex = [(p0, p0 + 500 + off), (p0 + 1001, p0 + 1200), (p0 + 1801, p0 + 2200)]
+                    g = _G("SHD%d" % (k + 1), chrom, "+")
+                    g.hidden.append(_T(g.id + ".h1", g.id, chrom, "+", ex, False, "same-coordinates-other-sequence"))
+                    for intr in g.hidden[0].introns:
+                        w.plant_sites(chrom, intr, "+")
+                    w.genes.append(g)
+                    for _ in range(n_reads):
+                        w.read_from_transcript(g.hidden[0], mode="full", jitter=0, polya=True, flag=0)
+                chk.count("worlds_with_near_identical_loci_on_two_sequences")
         if seed % 2 == 1 and seed < 9000:
             world2.strip_tails(w)          # polyA-trimmed data: no polyA requirement, ends defined by read starts/ends only
         pipeline.write_world(w, d)
